@@ -10,7 +10,8 @@
      "dispatching each node to the handler of its most specific class for which a handler exists"
           C08_handler_most_specific, C08_handler_first_in_mro, C08_mro_class_before_bases
      "supplies as context the true chain of ancestors and, for path tracking, the index path"
-          C08_context_true
+          C08_context_aligned (the k-th event is for the k-th emitting position in pre-order and carries the
+          ancestors / path of THAT position), C08_context_true (its existential corollary)
      "all sequences of visits by several visitor classes and instances (dispatch cache)"
           C08_cache_lookups, C08_cache_visits, C08_cache_shared_refuted (what the tie fact protects),
           C08_names_memo_refuted (a handler set is per visitor class, under ITS prefix: what state shared
@@ -106,6 +107,21 @@ Definition C08_context_true_statement : Prop :=
     exists p, subtree_at t p = Some (ev_node e) /\
               ev_parents e = (if v_tp v then ancestors t p else []) /\
               ev_path e = (if v_pt v then Some p else None).
+
+(* ... and it is the context of the node's OWN position (C08_context_true alone would let an event borrow
+   the position of an equal sub-term elsewhere): the events are aligned one to one, in order, with the
+   emitting positions in pre-order; the k-th event's node is the sub-tree at the k-th position, its parents
+   are the ancestors of THAT position and its path is THAT position.  For a probe that emits everywhere the
+   positions are all the positions of the tree. *)
+Definition context_at (v : vconf) (t : item) (e : event) (p : path) : Prop :=
+  subtree_at t p = Some (ev_node e) /\
+  ev_parents e = (if v_tp v then ancestors t p else []) /\
+  ev_path e = (if v_pt v then Some p else None).
+
+Definition C08_context_aligned_statement : Prop :=
+  forall v t,
+    Forall2 (context_at v t) (traverse v t) (filter (emits_at v t) (preorder_paths [] t)) /\
+    (emits_everywhere v -> Forall2 (context_at v t) (traverse v t) (preorder_paths [] t)).
 
 (* ---------------------------------------------------------------- (b) dispatch cache *)
 
@@ -224,6 +240,14 @@ Proof.
   exists p. auto.
 Qed.
 
+Theorem C08_context_aligned : C08_context_aligned_statement.
+Proof.
+  intros v t.
+  assert (A : Forall2 (context_at v t) (traverse v t) (filter (emits_at v t) (preorder_paths [] t))).
+  { eapply Forall2_impl'; [|apply traverse_aligned]. intros e p [H1 [_ [H3 H4]]]. repeat split; assumption. }
+  split; [exact A|]. intros He. rewrite <- (emits_all_filter v t (emits_everywhere_all v He)). exact A.
+Qed.
+
 Theorem C08_cache_lookups : C08_cache_lookups_statement.
 Proof.
   intros Hof h. rewrite code_cache_not_shared.
@@ -332,6 +356,15 @@ Example C08_probe_nonvacuous :
     (Some [1;1], Some CWord, [CAndOperation; CRange]) ].
 Proof. split; [right; simpl; tauto|vm_compute; reflexivity]. Qed.
 
+(* two EQUAL sub-terms at different depths: a AND (a) — each event carries the context of its own position *)
+Example C08_context_equal_subterms :
+  let w := Term KWord meta0 [97]%N in
+  let t := Op KAnd meta0 [w; Grp KGroup meta0 w] in
+  map (fun e => (ev_node e, ev_path e, map cls_of (ev_parents e))) (traverse ex_probe t) =
+  [ (t, Some [], []); (w, Some [0], [CAndOperation]); (Grp KGroup meta0 w, Some [1], [CAndOperation]);
+    (w, Some [1; 0], [CAndOperation; CGroup]) ].
+Proof. vm_compute. reflexivity. Qed.
+
 (* a probe with few handlers and no generic wrapper emits only at the handled nodes *)
 Example C08_partial_probe_nonvacuous :
   map (fun e => (ev_path e, ev_handler e)) (traverse (mkV [CTerm; CRange] true false false) ex_tree) =
@@ -376,6 +409,7 @@ Print Assumptions C08_handler_most_specific.
 Print Assumptions C08_handler_first_in_mro.
 Print Assumptions C08_mro_class_before_bases.
 Print Assumptions C08_context_true.
+Print Assumptions C08_context_aligned.
 Print Assumptions C08_cache_lookups.
 Print Assumptions C08_cache_visits.
 Print Assumptions C08_cache_shared_refuted.
